@@ -311,7 +311,25 @@ def _worker(args):
     except Hang:
         acc.violation('harness', 'hang', dict(shard=_j(shard), group='shard-hang'),
                       f"# shard {shard!r} hung outside a guarded call\nassert False")
-    except Exception:
+    except Exception as e:
+        # An exception that escaped the check. If it was RAISED INSIDE THE LIBRARY (innermost frame under REPO) in a call the check makes
+        # unguarded - a call that always succeeds on a tree where the property holds, else this shard would crash there too - the library
+        # has stopped doing what the reference behaviour requires: that is a disagreement, reported with the shard itself as the replay.
+        # Anything else is a defect of the harness (exit 2).
+        tb = e.__traceback__
+        inner = tb
+        while inner.tb_next is not None:
+            inner = inner.tb_next
+        where = inner.tb_frame.f_code.co_filename
+        if os.path.realpath(where).startswith(REPO + os.sep):
+            frames = traceback.extract_tb(tb)
+            call_site = next((f"{os.path.basename(f.filename)}:{f.lineno} {f.line}" for f in reversed(frames) if not os.path.realpath(f.filename).startswith(REPO + os.sep)), '?')
+            group = f"unguarded|{type(e).__name__}"
+            key = ('V', 'library-call', 'exc', group)
+            acc.violation('library-call', 'exc', dict(shard=_j(shard), exception=type(e).__name__, message=str(e)[:200], raised_in=os.path.relpath(where, REPO),
+                                                      harness_call=call_site[:200], group=group),
+                          shard_snippet(modname, tier, seed, shard, key), 'the call succeeds (it does on every tree where the property holds)', f"{type(e).__name__}: {str(e)[:120]}")
+            return acc.export()
         return dict(error=traceback.format_exc(), shard=_j(shard))
     finally:
         try:
